@@ -45,3 +45,8 @@ Proof. split; reflexivity. Qed.
 Lemma src_wedge_ok D root wedge detA :
   src_wedge pos_recipr root D wedge detA = wedge_of root detA /\ src_integrate_is_masked_mean = true.
 Proof. split; reflexivity. Qed.
+
+Lemma src_ctor_ok :
+  src_ctor_stores_arguments = true /\ src_default_fwhm = default_fwhm /\
+  src_default_scale = default_scale /\ src_default_location = default_location.
+Proof. repeat split; reflexivity. Qed.
